@@ -258,10 +258,18 @@ def main(argv: list[str]) -> int:
         traceback.print_exc()
         return 2
     except Exception as e:  # noqa
-        print(f"HARNESS-ERROR property={prop}: {type(e).__name__}: {e}",
-              flush=True)
-        traceback.print_exc()
-        return 2
+        if not ctx.violations:
+            print(f"HARNESS-ERROR property={prop}: {type(e).__name__}: {e}",
+                  flush=True)
+            traceback.print_exc()
+            return 2
+        # Violations were already established (each re-executed by its
+        # module); code that runs later (sampling, summaries) may trip over
+        # the same broken library behaviour. Report what was found.
+        print(f"note: exploration stopped early after the violations below: "
+              f"{type(e).__name__}: {e}", flush=True)
+        ctx.cap(f"run stopped early by {type(e).__name__} after violations "
+                "had been found")
     try:
         write_evidence(ctx, level)
     except HarnessError as e:
